@@ -3,6 +3,11 @@
 pub uninterp spec fn crc(s: Seq<u8>) -> u32;                 // A-CRC-FN: crc32c::crc32c is a pure function of its argument
 pub uninterp spec fn pwb_known_device(d: u32) -> bool;       // membership in the documented PadWing board table (A-MAPS; Kani: complete)
 
+pub uninterp spec fn pwb_board_of(d: u32) -> BoardId;         // the table row of a device id: BoardId::try_from(u32) is a pure function (A-MAPS)
+// derived `PartialEq` of BoardId (name, MAC, device id) is structural equality; BoardId holds a `&'static str`, so Verus cannot derive it
+pub assume_specification [ <BoardId as core::cmp::PartialEq>::eq ] (a: &BoardId, b: &BoardId) -> (r: bool)
+    ensures r == (*a == *b);
+
 pub open spec fn all_zero(s: Seq<u8>) -> bool { forall|i: int| 0 <= i < s.len() ==> s[i] == 0 }
 
 pub open spec fn chunk_ok(s: Seq<u8>) -> bool {
